@@ -277,6 +277,7 @@ class Net:
         self.all = []            # every transport ever opened, by cid order
         self._cid = 0
         self.attempts = 0
+        self.peer_form = lambda h: h      # how getpeername() spells the address that was dialled
 
     def _new_cid(self):
         self._cid += 1
@@ -311,7 +312,7 @@ class Net:
         if entry[0] == "connect":
             idx = min(entry[1], len(cands) - 1)
             await asyncio.sleep(0)
-            return FakeSock(self, cands[idx], addr_infos[idx][4][1])
+            return FakeSock(self, self.peer_form(cands[idx]), addr_infos[idx][4][1])
         raise RuntimeError("bad script entry")
 
     def install(self):
